@@ -120,10 +120,16 @@ class History:
         return self
 
     def apply(self, op):
+        before = None
+        if op['op'].startswith('rm_'):
+            m = self.sess.model
+            before = {ns: {p: (n.kind, n.rr_name) for p, n in m.ns[ns].items()} for ns in ('iso', 'joliet', 'udf')}
         out = self.sess.step(op)
         if not out.ok:
             self.refused.append((op, out.summary()))
             self.rebuild()
+        elif before is not None:
+            self.gen.note_removed(before, self.sess.model)
         return out
 
     def rebuild(self):
@@ -228,3 +234,70 @@ def diff_ranges(a, b, limit=64):
                     k += 1
         i = j
     return out
+
+
+def exact_fill_ops(level, blocks=1, extra=2):
+    """Plain-ISO directory whose records fill `blocks` sectors exactly (no Rock Ridge / XA):
+    "." and ".." are 34 bytes each, 5-character identifiers give 38-byte and 7-character
+    identifiers 40-byte records.  Then `extra` more files (spill into the next sector)."""
+    need = 2048 * blocks - 68
+    for a in range(0, 40):
+        if (need - 38 * a) % 40 == 0 and need - 38 * a >= 0:
+            b = (need - 38 * a) // 40
+            break
+    else:
+        return None
+    dname = '/FILL' if level < 4 else '/fill'
+    ops = [{'op': 'add_directory', 'iso_path': dname}]
+    cid = 7000
+    for k in range(a):
+        cid += 1
+        ops.append({'op': 'add_fp', 'cid': cid, 'length': (k % 3) * 700, 'iso_path': '%s/%s.;1' % (dname, 'ABCDEFGHIJKLMNOPQRSTUVWXYZ'[k // 26] + 'ABCDEFGHIJKLMNOPQRSTUVWXYZ'[k % 26])})
+    for k in range(b):
+        cid += 1
+        ops.append({'op': 'add_fp', 'cid': cid, 'length': (k % 4) * 300, 'iso_path': '%s/X%03d.;1' % (dname, k)})
+    for k in range(extra):
+        cid += 1
+        ops.append({'op': 'add_fp', 'cid': cid, 'length': 10, 'iso_path': '%s/Z%03d.;1' % (dname, k)})
+    return ops
+
+
+def special_layout(g, which):
+    """Deterministic layouts that random histories reach rarely.  Returns (cfg, ops)."""
+    from harness.model import Cfg
+    r = g.rng
+    if which.startswith('exact-fill'):
+        cfg = Cfg(level=r.choice([1, 2, 3]), joliet=r.choice([None, 3]), udf=r.random() < 0.3)
+        ops = exact_fill_ops(cfg.level, blocks=r.choice([1, 2, 3]) if which == 'exact-fill-multi' else 1,
+                             extra=0 if which in ('exact-fill', 'exact-fill-multi') else r.choice([1, 3]))
+        if which == 'exact-fill-root':
+            # the root directory itself filled exactly: 45 eleven-character identifiers (34+34+45*44)
+            ops = [{'op': 'add_fp', 'cid': 7500 + k, 'length': 5 * k, 'iso_path': '/FILE%04d.;1' % k} for k in range(45)]
+            if r.random() < 0.5:
+                ops.append({'op': 'add_directory', 'iso_path': '/ZDIR'})
+        return cfg, ops
+    if which == 'udf-big-dir':
+        cfg = Cfg(level=r.choice([1, 3]), udf=True, joliet=r.choice([None, 3]), rr=r.choice([None, '1.09']))
+        ops = [{'op': 'add_directory', 'udf_path': '/many'}]
+        n = r.choice([45, 70, 130])
+        for k in range(n):
+            ops.append({'op': 'add_fp', 'cid': 7600 + k, 'length': r.choice([0, 1, 100]), 'udf_path': '/many/' + 'n%03d-' % k + 'x' * r.choice([5, 30, 60])})
+        for k in range(0, n, 3):
+            if r.random() < 0.4:
+                ops.append({'op': 'rm_file', 'udf_path': ops[1 + k]['udf_path']})
+        return cfg, ops
+    if which == 'udf-exact-fill':
+        # FIDs filling a sector exactly: parent FID 40 bytes, name n -> 38+1+n rounded to 4
+        cfg = Cfg(level=3, udf=True)
+        ops = [{'op': 'add_directory', 'udf_path': '/data'}]
+        for k in range(40):                      # 6-character names: 38+7=45 -> 48 bytes
+            ops.append({'op': 'add_fp', 'cid': 7800 + k, 'length': 1, 'udf_path': '/data/f%05d' % k})
+        for k in range(2):                       # 2-character names: 38+3=41 -> 44 bytes
+            ops.append({'op': 'add_fp', 'cid': 7850 + k, 'length': 1, 'udf_path': '/data/g%d' % k})
+        for k in range(r.choice([1, 3])):
+            ops.append({'op': 'add_fp', 'cid': 7860 + k, 'length': 1, 'udf_path': '/data/h%05d' % k})
+        return cfg, ops
+    raise ValueError(which)
+
+
+SPECIALS = ['exact-fill', 'udf-big-dir', 'udf-exact-fill', 'exact-fill-root', 'exact-fill-multi', 'exact-fill-spill']
